@@ -265,6 +265,26 @@ def check_ray_function(index, rep, f: Func) -> Optional[ast.For]:
               'the opacity of a cell would decide its own visibility', f'{name}: count before update')
     for e in lit_counts:
         rep.holds('C06.R2', f'{VIS}:{name}:{e.line}', f'lit count `{src(e.stmt)}`')
+    # the counters hold up to one count per ray of the fan ((H+1)(W+1) or 360 rays through the
+    # origin cell): an 8/16-bit or boolean array wraps or saturates and the agent's own cell
+    # drops to a count of 0
+    NARROW = {'np.uint8', 'np.int8', 'np.uint16', 'np.int16', 'bool', 'np.bool_', "'uint8'",
+              "'int8'", "'uint16'", "'int16'", "'bool'", 'np.ubyte', 'np.byte', 'np.short',
+              'np.ushort', 'np.float16', "'float16'", 'np.half'}
+    for e in counts:
+        arr = e.target.value
+        if not isinstance(arr, ast.Name):
+            continue
+        for d in w.defs.get(arr.id, []):
+            if d[0] == 'value' and isinstance(d[1], ast.Call):
+                dts = [src(k.value) for k in d[1].keywords if k.arg == 'dtype'] + \
+                    [src(a) for a in d[1].args[1:2]]
+                narrow = [t for t in dts if t in NARROW]
+                rep.check(not narrow, 'C06.R4', VIS, name, d[1].lineno, src(d[1]),
+                          f'the ray counter `{arr.id}` has element type {narrow}: it cannot hold '
+                          f'one count per ray of the fan (the count of the origin cell wraps), so '
+                          f'the agent\'s own cell or a fully lit cell can be reported hidden',
+                          f'{name}: counter `{unprefix_(arr.id)}` wide enough')
     totals = [e for e in counts if isinstance(e.node.op, ast.Add) and src(e.value) == '1'
               and prop_equiv(f_and(base, norm(e.guard)), base) is None]
     den = src(totals[0].target.value) if totals else None
